@@ -41,6 +41,8 @@ LEAN_SOURCES = ["LenaModel/Model/C20.lean", "LenaModel/Lemmas/C20.lean", "LenaMo
 THEOREMS = [
     # general (for all facts)
     "Lena.C20.resolver_sound",
+    "Lena.C20.resolver_alarm_is_real",
+    "Lena.C20.explore_failed_real",
     "Lena.C20.import_ok_of_resolvesAll",
     "Lena.C20.exported_of_resolvesAll",
     "Lena.C20.load_resolves_iff",
@@ -95,7 +97,7 @@ CASE_TIMEOUT = 30
 
 _PY = sys.executable
 _PROBE = str(VERIF / "harness" / "c20_probe.py")
-_state = {"facts": None, "lock": None, "static": {}, "behaviour": {}, "random": None}
+_state = {"facts": None, "lock": None, "static": {}, "behaviour": {}, "random": None, "error": None}
 
 
 # ----------------------------------------------------------------------------------------------------------
@@ -117,6 +119,15 @@ def _cleanup_alt():
 
 def pre_build(ctx):
     """regenerate the Lean facts from the tree under test (called by run_check before `lake build`)"""
+    try:
+        _pre_build(ctx)
+    except Exception as e:      # a crash of the translator is a harness error (exit 2), never a verdict
+        import traceback
+        _state["error"] = "pre_build: " + "".join(traceback.format_exception_only(type(e), e)).strip() \
+            + "\n" + traceback.format_exc()[-1500:]
+
+
+def _pre_build(ctx):
     (LEAN_DIR / ".lake").mkdir(exist_ok=True)
     # one C20 check at a time: the generated files are shared; the lock is held until the process exits
     lock = open(LEAN_DIR / ".lake" / "c20.lock", "w")
@@ -183,6 +194,16 @@ def _entry_name(pkg):
 # cases
 
 def gen_cases(ctx):
+    if _state.get("error"):
+        return [{"kind": "harness-error", "error": _state["error"]}]
+    try:
+        return _gen_cases(ctx)
+    except Exception as e:      # a probe that cannot be run is a harness error (exit 2), never a verdict
+        import traceback
+        return [{"kind": "harness-error", "error": f"gen_cases: {e!r}\n{traceback.format_exc()[-1500:]}"}]
+
+
+def _gen_cases(ctx):
     facts = _facts()
     if ctx.tier == "thorough":
         # seeded random argument tuples on top of the fixed palettes (the same in both interpreters)
@@ -220,6 +241,8 @@ def gen_cases(ctx):
 
 def run_impl(case):
     kind = case["kind"]
+    if kind == "harness-error":
+        raise RuntimeError(case["error"])
     facts = _facts()
     if kind == "meta":
         return {"hash": facts["source_hash"], "modules": [m["name"] for m in facts["modules"]]}
@@ -286,11 +309,12 @@ def compare(case, res, replies):
         if any(v != "done" for v in m["loaded"].values()):
             return f"model leaves modules partially initialised: {[k for k, v in m['loaded'].items() if v != 'done']}"
         may = {mm["name"]: set(mm["may"]) for mm in facts["modules"]}
+        assumed = {mm["name"]: set(mm.get("assumed", ())) for mm in facts["modules"]}
         for mod in res["loaded"]:
             real, model = res["ns"][mod], m["ns"].get(mod, {})
             extra_real = {k for k in real if k not in model and k not in may.get(mod, ()) and not
                           any(s.startswith("*") for s in may.get(mod, ())) and k != "__warningregistry__"}
-            extra_model = {k for k in model if k not in real}
+            extra_model = {k for k in model if k not in real and k not in assumed.get(mod, ())}
             if extra_real or extra_model:
                 return f"namespace of {mod}: only in the interpreter {sorted(extra_real)}, only in the model {sorted(extra_model)}"
             for k in model:
@@ -311,8 +335,11 @@ def compare(case, res, replies):
         # the static import closure is the set of loaded modules
         if not m.get("closureClosed"):
             return "closedSetB is false for the import closure of this entry"
-        if sorted(k for k in m["closure"] if not k.startswith("__main__")) != res["loaded"]:
-            return (f"importClosure differs from sys.modules: {sorted(set(m['closure']) ^ set(res['loaded']) - {main})}")
+        # the static import closure bounds sys.modules from above (theorem loaded_within_closure); it is equal
+        # unless an import sits in a branch that this interpreter does not take
+        outside = sorted(set(res["loaded"]) - set(m["closure"]))
+        if outside:
+            return f"modules in sys.modules that are not in the static import closure: {outside}"
         return None
     if kind == "func":
         if "import" in m:
@@ -332,7 +359,8 @@ def compare(case, res, replies):
             if r[0] == "ok":
                 return f"bytecode: unresolved {res['problems']}; model: resolves"
             names = {(p["kind"], p["name"]) for p in res["problems"]}
-            if (r[0].get("kind"), r[0].get("name")) not in names and r[0].get("kind") != "ImportError":
+            mname = (r[0].get("name") or "").replace(extract_facts.LOCAL_SUFFIX, "")
+            if (r[0].get("kind"), mname) not in names and r[0].get("kind") != "ImportError":
                 return f"bytecode: unresolved {res['problems']}; model: {r[0]}"
             return None
         if bad_model:
@@ -365,7 +393,10 @@ def oracle(case, res):
         if res.get("present") and res["problems"]:
             p = res["problems"][0]
             where = f"{case['module']}, function {case['func']} (line {case['line']})"
-            if p["kind"] == "NameError":
+            if p["kind"] == "NameError" and p.get("unbound_local"):
+                what = (f"local name '{p['name']}' is bound only by an import statement that is not certain to have "
+                        f"run (UnboundLocalError)")
+            elif p["kind"] == "NameError":
                 what = f"global name '{p['name']}' is not defined in the module nor in builtins"
             elif p["kind"] == "AttributeError":
                 what = f"module '{p.get('on')}' has no attribute '{p['name']}' (reading {p.get('root')}. ... .{p['name']})"
